@@ -21,7 +21,7 @@ PROFILES = {
     # windows x failing subsets, timeouts over never-ending jobs
     "C03": dict(p_flat=0.5, max_flat=8, max_dur=2, p_exc=0.45, p_crit=0.1,
                 wins=[1, 1, 2, 2, 3, 0], tmos=[-1, -1, -1, 1, 2, 3], p_never=0.12,
-                p_forever=0.2),
+                p_forever=0.2, sdurs=[0, 0, 0, 1, 2, -1], stmos=[1, 1, 1, 0, 2, -1]),
     # verdicts: criticality everywhere, timeouts including 0, ties
     "C04": dict(p_flat=0.3, max_dur=2, p_exc=0.35, p_crit=0.6, p_pure=0.3,
                 tmos=[-1, -1, 0, 0, 1, 2, 2, 3], p_never=0.08, p_forever=0.15),
@@ -850,7 +850,7 @@ def _reqs_everything(shape, i):
 STRUCTURED = {
     "C01": [(joins, 0.25), (small_perms, 0.1), (nested_gap, 0.15), (between_waits, 0.08)],
     "C02": [(tie_groups, 0.3), (simultaneous_failures, 0.15)],
-    "C03": [(window_failures, 0.25), (deadlines, 0.1), (window_ties, 0.12), (failed_nested_successors, 0.1),
+    "C03": [(window_failures, 0.18), (deadlines, 0.08), (window_ties, 0.1), (failed_nested_successors, 0.08),
             (cancel_cliques, 0.08), (empty_stages, 0.06), (outside_hypothesis, 0.04), (late_shutdown_bounds, 0.04)],
     "C04": [(critical_instants, 0.15), (deadlines, 0.2), (crit_chains, 0.15), (simultaneous_failures, 0.15),
             (windowed_critical_abort, 0.05)],
@@ -863,7 +863,7 @@ STRUCTURED = {
     "C09": [(forevers, 0.45), (empty_stages, 0.04), (cancel_cliques, 0.04)],
     "C10": [(crit_chains, 0.2), (nested_gap, 0.12), (failed_nested_successors, 0.13), (sibling_windows, 0.08),
             (nested_failure_ties, 0.08)],
-    "C11": [(shutdown_grid, 0.3), (deadlines, 0.15), (nested_gap, 0.1), (nested_abort_ties, 0.1), (between_waits, 0.06),
+    "C11": [(shutdown_grid, 0.25), (deadlines, 0.1), (nested_gap, 0.08), (nested_abort_ties, 0.08), (between_waits, 0.06),
             (cancel_cliques, 0.05)],
     "C12": [(joins, 0.15), (small_perms, 0.15), (tie_groups, 0.15), (window_ties, 0.25)],
     "C13": [(shutdown_grid, 0.45), (late_shutdown_bounds, 0.05)],
